@@ -5,6 +5,7 @@ use tsmodel::{parse, Decl, Env, Ty};
 
 use crate::{Args, Log, TypeEntry};
 
+pub mod determinism;
 pub mod docs;
 pub mod exports;
 pub mod fsutil;
@@ -23,6 +24,7 @@ pub fn dispatch(args: &Args, reg: &[TypeEntry], log: &mut Log) {
         "C06" => history::c06(args, reg, log),
         "C08" => paths::c08(args, log),
         "C12" => libtypes::c12(args, log),
+        "C13" => determinism::c13(args, reg, log),
         "C17" => history::c17(args, reg, log),
         "exports" => exports::exports(args, reg, log),
         "declinfo" => docs::declinfo(args, reg, log),
